@@ -253,10 +253,33 @@ def run_cases(prop, tier, seed, workdir, extra_args=()):
                            stdout=f, stderr=subprocess.PIPE, text=True, env=GOENV)
     if p.returncode != 0:
         return None, 'sqdrive failed: ' + p.stderr[-2000:]
-    with open(cases) as fi, open(res, 'w') as fo:
-        p = subprocess.run([os.path.join(BUILD, 'sqmodel')], stdin=fi, stdout=fo, stderr=subprocess.PIPE, text=True)
+    # the model side is sharded over the cores (binary Coq integers are slow); results keep the case order
+    nshard = int(os.environ.get('VERIF_SHARDS', '14'))
+    lines = open(cases).read().split('\n')
+    if lines and lines[-1] == '': lines.pop()
+    if len(lines) < 200: nshard = 1
+    procs = []
+    for s in range(nshard):
+        sp = os.path.join(workdir, 'shard%d.txt' % s)
+        with open(sp, 'w') as f:
+            f.write('\n'.join(lines[s::nshard]) + ('\n' if lines[s::nshard] else ''))
+        fo = open(os.path.join(workdir, 'shard%d.res' % s), 'w')
+        procs.append((subprocess.Popen([os.path.join(BUILD, 'sqmodel')], stdin=open(sp), stdout=fo, stderr=subprocess.PIPE, text=True), fo))
+    errs = []
+    class P: pass
+    p = P(); p.returncode = 0; p.stderr = ''
+    for pr, fo in procs:
+        _, e = pr.communicate()
+        fo.close()
+        if pr.returncode != 0:
+            p.returncode = pr.returncode; p.stderr += e
     if p.returncode != 0:
         return None, 'sqmodel failed: ' + p.stderr[-2000:]
+    shard_rows = [open(os.path.join(workdir, 'shard%d.res' % s)).read().split('\n') for s in range(nshard)]
+    with open(res, 'w') as fo:
+        for i in range(len(lines)):
+            fo.write(shard_rows[i % nshard][i // nshard] + '\n')
+    p.stderr = '%d cases in %d shards' % (len(lines), nshard)
     rows = []
     with open(res) as f:
         for l in f:
